@@ -4,7 +4,7 @@
    never stops with "insufficient funds" (HEndBlock 4). *)
 From stdpp Require Import gmap.
 Require Import Model.Base Model.Ante Model.Validate Model.Current Model.State Model.Staking Model.Slashing Model.Poa Model.App.
-Require Import proofs.L1Effects proofs.Inv proofs.InvIdx proofs.InvPres proofs.InvMsgs proofs.InvHistory proofs.InvQueue.
+Require Import proofs.EvBasic proofs.L1Effects proofs.Inv proofs.InvIdx proofs.InvPres proofs.InvMsgs proofs.InvHistory proofs.InvQueue.
 Open Scope Z_scope.
 
 (* ---- sums over the validator records ---- *)
@@ -167,10 +167,22 @@ Proof.
   destruct (handle_signature c k p _) as [c1|] eqn:E; [|discriminate]. apply IH. eapply handle_signature_BI; eauto.
 Qed.
 
-Lemma begin_block_BI c votes absent c' : BI c -> begin_block c votes absent = inl c' -> BI c'.
+Lemma handle_evidence_BI c e c' : BI c -> handle_evidence c e = Some c' -> BI c'.
+Proof.
+  intros HB H. apply handle_evidence_cases in H as [->|(id & v & i & c1 & s2 & _ & _ & _ & _ & _ & _ & Es & Hj & ->)]; [exact HB|].
+  pose proof (slash_BI _ _ _ _ _ HB Es) as [A B]. destruct Hj as [[_ ->]|[_ Ej]]; [split; assumption|].
+  destruct (jail_BI_stk _ _ _ Ej) as [J1 J2]. unfold BI. cbn. rewrite J1, J2. auto.
+Qed.
+
+Lemma handle_evidences_BI evs c c' : BI c -> handle_evidences evs c = Some c' -> BI c'.
+Proof. apply (handle_evidences_preserves BI). intros; eapply handle_evidence_BI; eauto. Qed.
+
+Lemma begin_block_BI c votes absent evs c' : BI c -> begin_block c votes absent evs = inl c' -> BI c'.
 Proof.
   intros HB. unfold begin_block. destruct (_ && _); [discriminate|]. destruct (handle_votes votes absent c) as [c1|] eqn:E; [|discriminate].
-  intros [= <-]. pose proof (handle_votes_BI _ _ _ _ HB E) as H1. unfold poa_begin_block. destruct (1 <? height c1); exact H1.
+  destruct (handle_evidences evs c1) as [c2|] eqn:E2; [|discriminate].
+  intros [= <-]. pose proof (handle_votes_BI _ _ _ _ HB E) as H1. pose proof (handle_evidences_BI _ _ _ H1 E2) as H2.
+  unfold poa_begin_block. destruct (1 <? height c2); exact H2.
 Qed.
 
 (* ---- PoA messages ---- *)
@@ -503,8 +515,8 @@ Proof.
   set (c0 := with_clock (w_chain w) (height (w_chain w) + 1) (now (w_chain w) + b_dt b)).
   assert (H0 : CI c0) by (apply CI_clock; exact HCI).
   assert (B0 : BI c0) by exact HB.
-  destruct (begin_block c0 _ (b_absent b)) as [c1|e] eqn:Eb; [|exact B0].
-  pose proof (begin_block_CI _ _ _ _ H0 Eb) as H1. pose proof (begin_block_BI _ _ _ _ B0 Eb) as B1.
+  destruct (begin_block c0 _ (b_absent b) (b_evidence b)) as [c1|e] eqn:Eb; [|exact B0].
+  pose proof (begin_block_CI _ _ _ _ _ H0 Eb) as H1. pose proof (begin_block_BI _ _ _ _ _ B0 Eb) as B1.
   pose proof (deliver_txs_CI (b_txs b) c1 H1) as H2. pose proof (deliver_txs_BI (b_txs b) c1 H1 B1) as B2.
   destruct (deliver_txs c1 (b_txs b)) as [c2 outs]. cbn in H2, B2.
   destruct (staking_end_block c2) as [c3 upd|e] eqn:Ee; [|exact B2].
@@ -529,8 +541,8 @@ Proof.
   set (c0 := with_clock (w_chain w) (height (w_chain w) + 1) (now (w_chain w) + b_dt b)).
   assert (H0 : CI c0) by (apply CI_clock; exact HCI).
   assert (Q0 : QI (stk c0)) by exact HQ. assert (B0 : BI c0) by exact HB.
-  destruct (begin_block c0 _ (b_absent b)) as [c1|e1] eqn:Eb; [|cbn; discriminate].
-  pose proof (begin_block_CI _ _ _ _ H0 Eb) as H1. pose proof (begin_block_QI _ _ _ _ H0 Q0 Eb) as Q1. pose proof (begin_block_BI _ _ _ _ B0 Eb) as B1.
+  destruct (begin_block c0 _ (b_absent b) (b_evidence b)) as [c1|e1] eqn:Eb; [|cbn; discriminate].
+  pose proof (begin_block_CI _ _ _ _ _ H0 Eb) as H1. pose proof (begin_block_QI _ _ _ _ _ H0 Q0 Eb) as Q1. pose proof (begin_block_BI _ _ _ _ _ B0 Eb) as B1.
   pose proof (deliver_txs_CI (b_txs b) c1 H1) as H2. pose proof (deliver_txs_QI (b_txs b) c1 H1 Q1) as Q2. pose proof (deliver_txs_BI (b_txs b) c1 H1 B1) as B2.
   destruct (deliver_txs c1 (b_txs b)) as [c2 outs]. cbn in H2, Q2, B2.
   destruct (staking_end_block_never_halts c2 H2 Q2 B2) as (c3 & upd & ->).
